@@ -122,7 +122,14 @@ pub fn sop_label(o: &SOp) -> String {
 }
 
 pub fn sop_parse(s: &str, all: &[SOp]) -> SOp {
-    all.iter().find(|o| sop_label(o) == s).cloned().unwrap_or_else(|| machinery_error(&format!("unknown staking op {}", s)))
+    if let Some(o) = all.iter().find(|o| sop_label(o) == s) {
+        return o.clone();
+    }
+    // block steps computed from a state (maturity sweep): advance(<n>ns)
+    if let Some(n) = s.strip_prefix("advance(").and_then(|r| r.strip_suffix("ns)")).and_then(|n| n.parse::<u64>().ok()) {
+        return SOp::AdvanceNanos { nanos: n };
+    }
+    machinery_error(&format!("unknown staking op {}", s))
 }
 
 pub struct Names {
@@ -961,6 +968,7 @@ pub fn alphabet_c14(tier: Tier, full: bool) -> Vec<SOp> {
         SOp::Delegate { d: 0, v: 1, amt: 2, denom: 0 },
         SOp::Undelegate { d: 1, v: 0, amt: 2, denom: 0 },
         SOp::Slash { v: 0, pct: 100 },
+        SOp::Undelegate { d: 0, v: 1, amt: 1, denom: 0 },
     ];
     if full || tier == Tier::Thorough {
         v.extend([
@@ -1076,23 +1084,66 @@ fn std_assumptions() -> Vec<String> {
     ]
 }
 
+/// In every explored state with at least two pending unbondings: a block update that lands exactly
+/// on the earliest maturity, directly and after a slash of either validator in between - the
+/// unbonding that is due is paid by that update (whatever else is queued, in whatever order),
+/// the others are not.
+fn maturity_sweep(ctx: &Ctx, nm: &Names, states: &[SState], alpha: &[SOp], cfg: &Cfg) -> u64 {
+    let prop = cfg.prop.to_lowercase();
+    states
+        .par_chunks(32)
+        .map(|ch| {
+            let mut app = build(nm, cfg);
+            let mut n = 0u64;
+            for s in ch {
+                if s.hidden.queue.len() < 2 {
+                    continue;
+                }
+                let t_min = s.hidden.queue.iter().map(|q| q.payout_at).min().unwrap();
+                if t_min <= s.hidden.now || t_min - s.hidden.now > u64::MAX as u128 {
+                    continue;
+                }
+                let adv = SOp::AdvanceNanos { nanos: (t_min - s.hidden.now) as u64 };
+                let mut all_ops = alpha.to_vec();
+                all_ops.push(adv.clone());
+                let mut rep = |class: &str, detail: Value| {
+                    if home(&prop, class) {
+                        ctx.violation(&format!("{}:{}", prop, class), detail)
+                    }
+                };
+                let _ = step(&mut app, nm, s, &adv, cfg, &all_ops, &mut rep);
+                n += 1;
+                for v in 0..2u8 {
+                    let r = step(&mut app, nm, s, &SOp::Slash { v, pct: 50 }, cfg, &all_ops, &mut rep);
+                    n += 1;
+                    if let Some(s1) = r.next {
+                        let _ = step(&mut app, nm, &s1, &adv, cfg, &all_ops, &mut rep);
+                        n += 1;
+                    }
+                }
+            }
+            n
+        })
+        .sum()
+}
+
 pub fn run_c14(ctx: &Ctx) -> i32 {
     let nm = names();
     let cfg = Cfg { check_rewards: false, prop: "C14".into(), funds: 10, unbonding: UNBONDING, payout_is_home: false };
     let reduced = alphabet_c14(Tier::Quick, false);
     let (d_reduced, d_full) = ctx.tier.pick((6, 0), (7, 6));
     let out1 = explore(ctx, &nm, &reduced, d_reduced, &cfg, true, ctx.tier.pick(600_000, 3_000_000));
-    let n1 = invalid_sweep(ctx, &nm, &out1.all, &reduced, &cfg);
+    let n1 = invalid_sweep(ctx, &nm, &out1.all, &reduced, &cfg) + maturity_sweep(ctx, &nm, &out1.all, &reduced, &cfg);
     let mut outs = vec![("reduced-alphabet", &out1, reduced.iter().map(sop_label).collect::<Vec<_>>())];
     let full = alphabet_c14(Tier::Thorough, true);
     let out2;
     let mut n2 = 0;
     if d_full > 0 {
         out2 = explore(ctx, &nm, &full, d_full, &cfg, true, 3_000_000);
-        n2 = invalid_sweep(ctx, &nm, &out2.all, &full, &cfg);
+        n2 = invalid_sweep(ctx, &nm, &out2.all, &full, &cfg) + maturity_sweep(ctx, &nm, &out2.all, &full, &cfg);
         outs.push(("full-alphabet", &out2, full.iter().map(sop_label).collect::<Vec<_>>()));
     }
-    finish(ctx, outs, n1 + n2, json!({"depth_reduced_alphabet": d_reduced, "depth_full_alphabet": d_full, "invalid_operations_tried_in_every_state": invalid_ops().iter().map(sop_label).collect::<Vec<_>>()}), std_assumptions())
+    finish(ctx, outs, n1 + n2, json!({"maturity_sweep": "in every state with two or more pending unbondings: a block update landing exactly on the earliest maturity, directly and after a 50% slash of either validator", "depth_reduced_alphabet": d_reduced, "depth_full_alphabet": d_full, "invalid_operations_tried_in_every_state": invalid_ops().iter().map(sop_label).collect::<Vec<_>>()}), std_assumptions())
 }
 
 pub fn alphabet_c16() -> Vec<SOp> {
